@@ -89,6 +89,19 @@ def run(ck, ctx):
             pos = [ordinal.get(f[2]) if f[0] == "parse" else f for f in fields[off:]]
             ok = ok and pos == list(range(len(want_ops))) and all(dom for ty, dom in ops) and flds[spec["variant"]][off:] == want_ops
         ck.ob("C03.1", "arm:" + m, ok, "%s -> %s(%s) parsing %s (grammar: %s%s)" % (m, r["variant"], fields, [ty for ty, dom in ops], want_ops, ", mask %s" % spec["mask"] if "mask" in spec else ""), where)
+    # NOP's optional operand: it is parsed exactly when the next token can start a PC offset (a literal of either sign or a label)
+    ib = F.bodies.get("<%s as parse::Parse>::parse" % parsex.ASM)
+    look = None
+    if ib is not None:
+        nop = by_ident.get("NOP", [])
+        for bi, t, c, _ in ib.calls():
+            if (c or "").endswith("Parser::parse") and nop and ib.can_reach(bi, nop[0]["block"]) and not ib.dominates(bi, nop[0]["block"]):
+                pcs = nf.path_conditions(ib, bi, lambda x: x.startswith("discr(Parser::peek("), track_consts=True)
+                look = sorted(sorted(pc) for pc in (pcs or []))
+    pk = "discr(Parser::peek(arg1)"
+    want_look = sorted([sorted([(pk + " as Some.0.0 as Ident.0)", str(idn.index("Label"))), (pk + " as Some.0.0)", str(ti["Ident"])), (pk + ")", "1")]),
+                        sorted([(pk + " as Some.0.0)", str(ti["Unsigned"])), (pk + ")", "1")]), sorted([(pk + " as Some.0.0)", str(ti["Signed"])), (pk + ")", "1")])])
+    ck.ob("C03.1", "arm:NOP:lookahead", look == want_look, "NOP parses an operand exactly when the next token is Unsigned, Signed or a label: %s" % look, "src/parse.rs")
     ck.ob("C03.1", "arm-coverage", sorted(a for a in arm_names if a != "Label") == sorted(G["mnemonics"]) and not by_ident.get("Label"),
           "the opcode switch has an arm for exactly the grammar's mnemonics (%d) and the Label arm builds no instruction" % (len(arm_names) - 1), "src/parse.rs")
     # the opcode identifier: any Ident token that is not a label
@@ -247,6 +260,7 @@ def run(ck, ctx):
     nf.expect_deep(ck, F, "C03.4", "StrLiteral", "<parse::simple::StrLiteral as parse::simple::DirectTokenParse>::match_",
                    ["Result::Err(ParseErr::new(str'expected string literal', arg2)) ; [discr(arg1 as Some.0) in [%d,%d] & discr(arg1) in [1,1]] => Result::Ok(StrLiteral(to_string(arg1 as Some.0 as String.0)))" % (ti["String"], ti["String"])],
                    "a string literal operand is the String token's text", file="src/parse.rs")
+    ck.include("C05", ctx, "C03.5", {"C05.1", "C05.2", "C05.3", "C05.5"}, "'any numeric notation': numeric and register tokens denote their written value")
     ck.assume("logos resolves overlapping token kinds by longest match and priority; token spans are logos'")
     ck.assume("numeric tokens denote their written value and operands fit their fields: C05 / C35")
     ck.assume("the metamorphic consequence on assembled images follows from equal statements (C01)")
